@@ -7,6 +7,7 @@ CONSTANTS
   Alpha <- AlphaFull
   JitSet <- J0
   MaxDepth = 12
+  ItemShapeTolerant = TRUE
 VIEW view
 INVARIANT TypeOK
 INVARIANT PropertyHolds
